@@ -49,6 +49,8 @@ def atom_interval(a):
     if isinstance(a, tuple):
         if a[0] in ("fd", "ext"):
             return (0, INF)
+        if a[0] == "uh":
+            return (1, INF)      # a user supplied handle that passed the "is set" (non-zero) validation
         if a[0] in ("addr", "mem", "fn", "str", "pid"):
             return (1, INF)
         if a[0] == "sym":
@@ -281,6 +283,8 @@ class Interp:
             if (a in ("NEG", "POS") and is_int(b) and b in self.Kset) or (b in ("NEG", "POS") and is_int(a) and a in self.Kset):
                 may = False
             fail = not (single and la == lb)
+            if a == b and isinstance(a, tuple) and a[0] in ("fd", "pid", "mem", "addr") and "many" not in a:
+                fail = False    # one and the same runtime value
             return may, fail
         if op == "!=":
             m, f = self.cmp_atoms("==", a, b)
@@ -541,6 +545,8 @@ class Interp:
 
     def ptr_targets(self, val, node=None):
         out = []
+        if ("NULL" in val or 0 in val) and node is not None and self.stack:
+            self.events.append(("null-deref", self.stack[-1], node, val, None, tuple(f.name for f in self.stack)))
         for a in val:
             if isinstance(a, tuple) and a[0] == "addr":
                 out.append(a[1])
@@ -595,8 +601,10 @@ class Interp:
                 cells = self.lval(sub, st, fn)
                 return self.load_cells(st, cells, n.get("ct") or n.get("t"))
             if ck == "ArrayToPointerDecay":
-                if strip(sub)["k"] == "StringLiteral":
-                    return frozenset({("str", strip(sub).get("str", ""))})
+                if strip_lv(sub)["k"] == "StringLiteral":
+                    return frozenset({("str", strip_lv(sub).get("str", ""))})
+                if strip_lv(sub)["k"] == "PredefinedExpr":
+                    return frozenset({("str", "__func__")})
                 cells = self.lval(sub, st, fn)
                 return frozenset(("addr", ("i", c, 0)) for c in cells)
             if ck == "FunctionToPointerDecay":
@@ -1367,8 +1375,8 @@ class Interp:
         v = self.rval(c, st, fn)
         tv = frozenset(a for a in v if self.truth(frozenset({a}))[0])
         fv = frozenset(a for a in v if self.truth(frozenset({a}))[1])
-        ts = [self.refine_node(c, self._nonzero(tv), st, fn)] if tv else []
-        fs = [self.refine_node(c, self._zero(fv), st, fn)] if fv else []
+        ts = [self.refine_node(cond, self._nonzero(tv), st, fn)] if tv else []
+        fs = [self.refine_node(cond, self._zero(fv), st, fn)] if fv else []
         return ts, fs
 
     def _nonzero(self, v):
@@ -1405,9 +1413,11 @@ class Interp:
                         pass
                 return s
             return st
-        if k == "ImplicitCastExpr" and n.get("ck") == "LValueToRValue":
+        if (k == "ImplicitCastExpr" and n.get("ck") == "LValueToRValue") or \
+                (k in ("DeclRefExpr", "MemberExpr", "ArraySubscriptExpr") and n.get("dk") not in ("enum", "func")) or \
+                (k == "UnaryOperator" and n.get("op") == "*"):
             try:
-                cells = self.lval(n["c"][0], st, fn)
+                cells = self.lval(n["c"][0] if k == "ImplicitCastExpr" else n, st, fn)
             except AnalysisBroken:
                 return st
             if len(cells) == 1 and not is_weak_cell(cells[0]):
@@ -1442,7 +1452,7 @@ def is_weak_cell(c):
     while True:
         if c[0] == "i" and c[2] == "*":
             return True
-        if c[0] in ("unk", "heap"):
+        if c[0] == "unk" or (c[0] == "heap" and c[1][2] == "many"):
             return True
         if c[0] in ("f", "i"):
             c = c[1]
@@ -1476,6 +1486,8 @@ def strip_lv(n):
     while True:
         k = n["k"]
         if k in ("ParenExpr", "ConstantExpr") and n.get("c"):
+            n = n["c"][0]
+        elif k == "UnaryOperator" and n.get("op") == "__extension__":
             n = n["c"][0]
         elif k in ("ImplicitCastExpr", "CStyleCastExpr") and n.get("ck") in ("NoOp", "LValueToRValue", "BitCast") and n.get("c"):
             n = n["c"][0]
